@@ -432,6 +432,8 @@ type caseT struct {
 	Warm          [][2]string // an earlier, different request bound the same way (same type, entry point, options) whose
 	WarmS         []srcCase   // result is then written through (pointers, slices, maps): binds must not share state
 	HasWarm       bool
+	WarmNorm      int       `json:",omitempty"` // the earlier request was bound with WithKeyNormalizer (1 LowerCase, 2 CanonicalMIME) - an option the package stores and never reads
+	Norm          int       `json:",omitempty"` // (set on the copy of the case that runs the earlier request)
 	Tmpl          bool      `json:",omitempty"` // the earlier request was bound into a copy of the same pre-filled template: its slices share their backing arrays with the observed destination (p := defaults; QueryTo(q, &p))
 	NT            bool      // carries a boundary / out-of-range / malformed value (for the non-triviality rule)
 	Convs         []int     `json:",omitempty"` // converters registered with the options of the call / of the Binder (convs.go)
@@ -609,7 +611,7 @@ func genCase(r *hx.Rand) caseT {
 		if !firstSeen[c.T] {
 			// nothing of this type has been bound in this process yet: several goroutines at once, no earlier request
 			c.Conc = 4
-			c.HasWarm, c.Warm, c.WarmS, c.Tmpl = false, nil, nil, false
+			c.HasWarm, c.Warm, c.WarmS, c.Tmpl, c.WarmNorm = false, nil, nil, false, 0
 			c.EvB, c.HasEvC, c.EvC = 0, false, 0
 		}
 	}
@@ -782,6 +784,9 @@ func genCase1(r *hx.Rand) caseT {
 				c.WarmS = append(c.WarmS, srcCase{Tag: sc.Tag, KV: genSrc(r, ct.Shapes[sc.Tag], sc.Tag, c.Opts.over(c.Call), &nt, r.Range(2, 7))})
 			}
 			c.Tmpl = c.Prefill != 0 && !c.Gen && r.Chance(1, 2)
+			if r.Chance(1, 6) {
+				c.WarmNorm = r.Range(1, 2)
+			}
 		}
 		return c
 	}
@@ -816,6 +821,9 @@ func genCase1(r *hx.Rand) caseT {
 		var nt bool
 		c.Warm = genSrc(r, ct.Shapes[c.Tag], c.Tag, c.Opts, &nt, r.Range(2, 7))
 		c.Tmpl = c.Prefill != 0 && c.Entry == "T" && r.Chance(1, 2)
+		if r.Chance(1, 6) {
+			c.WarmNorm = r.Range(1, 2)
+		}
 	}
 	return c
 }
@@ -1517,6 +1525,12 @@ func run(ct *corpusType, c *caseT, s *srcT, dest any) (res any, err error, panic
 	if c.EvB != 0 {
 		o = append(o, eventsOption(c.EvB, &evB))
 	}
+	switch c.Norm {
+	case 1:
+		o = append(o, binding.WithKeyNormalizer(binding.LowerCase))
+	case 2:
+		o = append(o, binding.WithKeyNormalizer(binding.CanonicalMIME))
+	}
 	if c.Binder {
 		return runBinder(ct, c, s, dest)
 	}
@@ -1724,6 +1738,7 @@ func emit(id string, c caseT, st *hx.Stats) string {
 		return "# " + id + " not run: an earlier bind of this process did not return"
 	}
 	defer func() { firstSeen[c.T] = true }()
+	userPanicSeen.Store(false)
 	if c.Entry == "J" || c.Entry == "H" {
 		return emitBody(id, c, st)
 	}
@@ -1881,6 +1896,10 @@ func emit(id string, c caseT, st *hx.Stats) string {
 			if c.HasWarmCall {
 				w.CallConvs = c.WarmCallConvs
 			}
+			if c.WarmNorm != 0 {
+				// the earlier request used the key normalizer option: through the package-level entry point
+				w.Norm, w.Binder, w.Call, w.CallConvs = c.WarmNorm, false, nil, nil
+			}
 			ws := &srcT{}
 			if w.Entry != "B" {
 				ws = buildSrc(w.Tag, w.Src)
@@ -1913,6 +1932,9 @@ func emit(id string, c caseT, st *hx.Stats) string {
 	var panicked bool
 	var others []concOut
 	evB, evC = evCount{}, evCount{}
+	if c.Entry != "A" {
+		userPanicSeen.Store(false) // whatever the earlier request did
+	}
 	switch {
 	case c.Entry == "A":
 		res, err, panicked = dest, appErr, appPanicked
@@ -1923,6 +1945,18 @@ func emit(id string, c caseT, st *hx.Stats) string {
 		others = outs[1:]
 	default:
 		res, err, panicked = runTimed(ct, &c, s, dest)
+	}
+	anyPanicked := panicked
+	for _, o := range others {
+		anyPanicked = anyPanicked || o.panicked
+	}
+	if userPanicSeen.Load() && anyPanicked && !hung {
+		// the application's own UnmarshalText panicked and the bind let the panic through: nothing to judge
+		// (a bind that swallows it is judged like any other outcome: the value cannot be represented)
+		if st != nil {
+			st.Count("discarded_application_code_panicked")
+		}
+		return "# " + id + " discarded: the UnmarshalText of the application panicked and the bind propagated the panic"
 	}
 	outcome := "ok"
 	writeObs := func(l *hx.Line, res any, err error, panicked bool) {
@@ -1999,6 +2033,9 @@ func emit(id string, c caseT, st *hx.Stats) string {
 		}
 		if c.Tmpl {
 			st.Count("earlier_request_into_template_copy")
+		}
+		if c.WarmNorm != 0 {
+			st.Count("earlier_request_with_key_normalizer")
 		}
 		if c.Binder {
 			st.Count("binder_" + c.Entry)
@@ -2393,6 +2430,22 @@ func fixedCases() []caseT {
 			case lf.Kind == "map" && lf.Nested && lf.Prim == "s" && !f:
 				f = true
 				out = append(out, caseT{T: ct.E.Name, Tag: 0, Entry: "G", Opts: optsT{-1, -1, -1, false, false, nil}, Src: [][2]string{{lf.Keys[0] + ".a", "v"}}, NT: true})
+			}
+		}
+	}
+	// a value on which the application's own UnmarshalText panics: the bind may propagate the panic (the case is then
+	// discarded) - it must not report success
+	nup := 0
+	for _, ct := range opqCorpus {
+		if nup >= 3 {
+			break
+		}
+		for _, lf := range ct.Shapes[0].Leaves {
+			if lf.Prim == "o5" && !lf.Nested && (lf.Kind == "prim" || lf.Kind == "slice" || lf.Kind == "ptr") {
+				nup++
+				out = append(out, caseT{T: ct.E.Name, Tag: 0, Entry: hx.Pick(hx.NewRand(uint64(nup)), []string{"G", "T"}), Opts: optsT{-1, -1, -1, false, false, nil},
+					Src: [][2]string{{lf.Keys[0], "#12"}}, NT: true})
+				break
 			}
 		}
 	}
